@@ -14,7 +14,8 @@ def sh(cmd, cwd=None):
 def main():
     tier = 'thorough' if '--thorough' in sys.argv else 'quick'
     ids = [a for a in sys.argv[1:] if not a.startswith('--')]
-    props = sorted(f[:-3] for f in os.listdir(os.path.join(VERIF, 'sa', 'props')) if f.startswith('C') and f.endswith('.py'))
+    own_only = '--own' in sys.argv      # run only the check of the seed's own property (fast)
+    all_props = props = sorted(f[:-3] for f in os.listdir(os.path.join(VERIF, 'sa', 'props')) if f.startswith('C') and f.endswith('.py'))
     # baseline: violation lines of every check on the unmodified tree (pending findings must not count as "caught")
     import concurrent.futures as cf
     baseline = {}
@@ -28,6 +29,7 @@ def main():
     for sid in ids:
         d = os.path.join(VERIF, 'seeded', sid)
         meta = json.load(open(os.path.join(d, 'meta.json')))
+        props = [meta['property']] if own_only else all_props
         # a scratch copy of the analysed part of /repo's working tree (the checks only read sources), so that
         # concurrent work on /repo is not disturbed; equivalent to `git -C /repo apply` + `git checkout -- .`
         scratch = '/tmp/seedrepo_%s_%d' % (sid, os.getpid())
